@@ -297,6 +297,18 @@ class Machine:
             finally:
                 node.close()
 
+    async def abandon_precondition(self):
+        '''A server start abandons an unfinished compaction.  The statement restricts "abandoned,
+        then keep indexing" to databases where no script hash has more compacted rows than the flush
+        count; evaluated on disk (a refused tool run may have closed the compacting handle).'''
+        cdb = await self.open_compacting() if self.compaction_touched else None
+        if cdb is not None and cdb.history.comp_cursor != -1:
+            self.info['classes'].add('abandoned_unfinished_compaction')
+            ok, top = self.ordering_ok(cdb.history)
+            if not ok:
+                self.indexing_allowed = False
+                self.info['classes'].add('abandon_precondition_unmet')
+
     def ordering_ok(self, history):
         '''Is every existing row id below the next flush id?'''
         rows = self.raw_rows(history)
@@ -442,18 +454,13 @@ class Machine:
                                     f'{db.history.flush_count}', 'flush_count')
                 self.close_compacting()
             elif kind in ('server', 'extend', 'fork', 'force', 'extend_die'):
-                abandoned = False
-                # (looked up on disk: a refused tool run may have closed the compacting handle)
-                cdb = await self.open_compacting() if self.compaction_touched else None
-                if cdb is not None and cdb.history.comp_cursor != -1:
-                    abandoned = True
-                    self.info['classes'].add('abandoned_unfinished_compaction')
-                    ok, top = self.ordering_ok(cdb.history)
-                    if not ok:
-                        # the clause's stated precondition fails for this database: some script
-                        # hash has more compacted rows than the flush count
-                        self.indexing_allowed = False
-                        self.info['classes'].add('abandon_precondition_unmet')
+                await self.abandon_precondition()
+                if not self.indexing_allowed and self.db_height is not None:
+                    # blocks the dead server had not committed are still to be indexed: any server
+                    # start indexes on top of the abandoned compaction, which the statement's
+                    # restriction excludes for this database - no server is started any more
+                    self.info['classes'].add('server_start_skipped_precondition_unmet')
+                    continue
                 if kind == 'server' or not self.indexing_allowed:
                     await self.run_server()
                     continue
@@ -488,7 +495,12 @@ class Machine:
                     self.info['classes'].add('indexed_after_compaction')
             else:
                 raise AssertionError(op)
-        # final: a server must start on whatever is there and serve the model
+        # final: a server must start on whatever is there and serve the model (when blocks of a dead
+        # server are still to be indexed, that start indexes too: same precondition as above)
+        await self.abandon_precondition()
+        if not self.indexing_allowed and self.db_height is not None:
+            self.info['classes'].add('server_start_skipped_precondition_unmet')
+            return
         await self.run_server()
 
 
